@@ -135,6 +135,37 @@ def keepalive_signing(chk, binp):
             elif expect is not None and (g != expect or not okmac):
                 chk.violation("a request on an open connection is not signed with the key the host names as latched", d, expected=expect,
                               observed={"announced": g, "mac_ok": okmac, "mac_made_with": prod})
+        # a rotation whose attestation the host acknowledges slowly: a request relayed meanwhile is not signed with the key that is
+        # still waiting for that acknowledgement (the host would not know it)
+        if conn is not None:
+            import threading
+            K_slow = K1
+            plan = {"status": {"kind": "doc", "doc": {"version": "1.0", "secureChannelState": "Wireserver", "keyGuid": None}},
+                    "acquire": {"kind": "key", "guid": K_slow, "key": c10.KEYS[K_slow]}, "attest": {"kind": "ok", "delay": 1.2}}
+            res = {}
+            th = threading.Thread(target=lambda: res.update(st=kp.step(plan, kick=True, timeout=20.0)), daemon=True)
+            th.start()
+            end = time.time() + 6
+            while kp.attest_in_progress is None and time.time() < end and th.is_alive():
+                time.sleep(0.02)
+            if kp.attest_in_progress is not None:
+                time.sleep(0.2)
+                stack.hosts.take()
+                try:
+                    r = conn.request(e2e.build_request("GET", "/metadata/instance?step=attesting", [(b"Host", b"h")]), b"GET", 5.0)
+                except OSError:
+                    r = None
+                time.sleep(0.03)
+                recs = [x for x in stack.hosts.take() if not x.get("partial")]
+                chk.case(nontrivial_key=("keepalive-signing", "while the attestation is pending", bool(recs)))
+                chk.count("keepalive_signing_during_attestation")
+                for rec in recs:
+                    g, okmac, prod = c10.verify(rec)
+                    if g == K_slow:
+                        chk.violation("a request on an open connection is not signed with the key the host names as latched",
+                                      {"step": "the host has not yet acknowledged the attestation of the new key", "status": r and r["status"]},
+                                      expected=K3, observed={"announced": g, "mac_ok": okmac, "mac_made_with": prod})
+            th.join(timeout=25)
         # shutdown is signalled while the connection is still open: whatever is still relayed on it is signed as before (the host
         # goes on regarding its key as latched), or nothing is relayed at all
         if conn is not None and stack.ctl("cancel") == "ok":
@@ -150,10 +181,10 @@ def keepalive_signing(chk, binp):
             chk.count("keepalive_signing_after_shutdown_signal")
             for rec in recs:
                 g, okmac, prod = c10.verify(rec)
-                if g != K3 or not okmac:
+                if g != K1 or not okmac:
                     chk.violation("a request on an open connection is not signed with the key the host names as latched",
                                   {"step": "after the shutdown signal", "connection": "opened after the first latch and kept open", "status": r and r["status"]},
-                                  expected=K3, observed={"announced": g, "mac_ok": okmac, "mac_made_with": prod})
+                                  expected=K1, observed={"announced": g, "mac_ok": okmac, "mac_made_with": prod})
         if conn is not None:
             conn.close()
         kp.close()
@@ -229,6 +260,62 @@ def disable_under_load(chk, binp):
                 cn.close()
             except Exception:
                 pass
+        stack.close()
+
+
+def request_during_rule_change(chk, binp, what="the rules enforced for each endpoint are the ones in the latest document"):
+    """a request arrives exactly while a poll replaces a rule set (between the poll's "new rule id" and "new rules" messages to the
+    state actor): it is judged by the old rules or by the new ones - both refuse it here - never by none"""
+    import pipe
+    import threading
+    stack = e2e.Stack(binp)
+    try:
+        callers = pipe.Callers(stack)
+        kp = keeper.Keeper(None, sd=stack.sd, attach=stack, interval_ms=15)
+
+        def doc(rid, content):
+            return {"version": "2.0", "secureChannelEnabled": True, "hasRules": True, "keyGuid": None,
+                    "wireserver": None, "hostga": None, "imds": {"id": rid, "mode": "enforce", "content": content}}
+        K = "eeeeeeee-0000-0000-0000-00000000000e"
+        plan = lambda d: {"status": {"kind": "doc", "doc": d}, "acquire": {"kind": "key", "guid": K, "key": "5e" * 32}, "attest": {"kind": "ok"}}
+        if kp.step(plan(doc("rule-1", 1)), kick=True) is None:
+            chk.broken.append({"kind": "harness", "name": "request-during-rule-change", "why": "no poll after the first document"})
+            return
+        c = callers.caller(1000, "curl", False)
+        for k in range(3):
+            d2 = doc("rule-%d" % (k + 2), k + 2)
+            d2["keyGuid"] = K
+            # the client connection is opened (and attributed) beforehand: while the actor is held, the control channel of the harness
+            # may be waiting for it too
+            try:
+                conn = stack.connect(audit=(1000, c["pid"], 0, e2e.IMDS[0], e2e.IMDS[1]))
+            except OSError:
+                continue
+            time.sleep(0.4)
+            stack.hosts.take()
+            stack.ctl("stallactor key_keeper SetImdsRuleId 1200 0")
+            res = {}
+            th = threading.Thread(target=lambda: res.update(st=kp.step(plan(d2), kick=False, timeout=20.0)), daemon=True)
+            th.start()
+            time.sleep(0.4)                     # the actor is held inside the "new rule id" message; the request's lookup queues up behind it
+            try:
+                r = conn.request(e2e.build_request("GET", "/metadata/instance?during=%d" % k, [(b"Host", b"h")]), b"GET", 8.0)
+                conn.close()
+            except OSError:
+                r = None
+            th.join(timeout=25)
+            stack.ctl("khook off")
+            time.sleep(0.05)
+            recs = [x for x in stack.hosts.take() if not x.get("partial")]
+            chk.case(nontrivial_key=("request-during-rule-change", k, r and r["status"], len(recs)))
+            chk.count("requests_during_a_rule_change")
+            dsc = {"situation": "the poll is replacing the IMDS rule set (old and new both refuse this caller and URL); the request's rules lookup "
+                                "lands between the poll's two messages", "status": r and r["status"], "relayed": len(recs)}
+            if recs:
+                chk.violation(what if "bytes" in what else "the rules enforced for an endpoint were, for a moment, neither the old document's nor the new one's", dsc,
+                              expected="403, nothing relayed", observed=(r and r["status"], len(recs)))
+        kp.close()
+    finally:
         stack.close()
 
 
@@ -454,6 +541,13 @@ def run(chk):
             shutil.rmtree(kp.sd, ignore_errors=True)
     keepalive_signing(chk, binp)
     disable_under_load(chk, binp)
+    request_during_rule_change(chk, binp)
+    from checks import c06 as _c06
+    _sd = vlib.scratch_dir("c09k")
+    try:
+        _c06.redirect_switch_under_lookups(chk, binp, _sd, "the reported channel state changed but the endpoints are not intercepted as their modes say")
+    finally:
+        shutil.rmtree(_sd, ignore_errors=True)
     if chk.counts.get("done_1", 0) == 0:
         chk.broken.append({"kind": "gate", "name": "generator sanity", "why": "no iteration completed"})
     chk.coverage["rule"] = ("histories of 4-30 host answers in lock-step with the real key-keeper loop (status requests gated by the mock host): "
